@@ -78,6 +78,21 @@ def iadd (a b : Node) : Option Node :=
   | .comb sa, _        => mkComb (sa ++ [b])
   | _, _               => add a b                     -- incl. `list += list` (extend)
 
+/-- `CombinedDetector.__iadd__` AS EXECUTED on the object's subset list: the new subsets are appended, the
+positions are tested, and (repair F23) a refusal removes them again before re-raising.  Result: the
+subset list afterwards and whether the call was accepted. -/
+def appendOther (self : List Node) (other : Node) : List Node :=
+  match other with
+  | .comb s => self ++ s
+  | o => self ++ [o]
+
+def iaddExec (self : List Node) (other : Node) : List Node × Bool :=
+  if valid (.comb (appendOther self other)) then (appendOther self other, true) else (self, false)
+
+/-- the pre-repair statement order: append, test, raise - the appended subsets stay -/
+def iaddExecPre (self : List Node) (other : Node) : List Node × Bool :=
+  (appendOther self other, valid (.comb (appendOther self other)))
+
 /-- `sum(xs)` = `((0 + x₁) + x₂) + …`; `0 + x` is `x.__radd__(0)`, only detectors have it -/
 def sum : List Node → Option Node
   | [] => none            -- the integer 0, not a detector
